@@ -2,6 +2,7 @@ package checks
 
 import (
 	"fmt"
+	"sort"
 	"strings"
 	"time"
 
@@ -276,6 +277,48 @@ func c09Run(c core.Case) core.Result {
 	if out != want {
 		return core.Violation("resolution", fmt.Sprintf("executing %s renders\n    %q, want\n    %q\n    %s", main, out, want, desc()))
 	}
+	// Further renders on the SAME environment give what they give on a fresh one: the same template again, and
+	// (after an aliased use) probes that import the used templates plainly. Nothing a render did to the trees it
+	// loaded may be visible to a later render.
+	probes := map[string]string{}
+	if cfg.L <= 2 || (cfg.useLvl > 0 && cfg.useKind == 1 && cfg.pform == 0) {
+		probes[main] = tpls[main]
+	}
+	if cfg.useLvl > 0 && cfg.useKind == 1 && cfg.pform == 0 {
+		probes["probe1"] = "{% extends 't0' %}{% use 'blk2' %}{% block " + cfg.names[0] + " %}[{{ block('y') }}|{{ block('x') }}]{% endblock %}"
+		probes["probe2"] = "{% extends 't0' %}{% use 'blk2' with x as z %}{% block " + cfg.names[0] + " %}[{{ block('z') }}]{% endblock %}"
+	}
+	if len(probes) > 0 {
+		fresh := map[string]string{}
+		for n, src := range tpls {
+			fresh[n] = src
+		}
+		for n, src := range probes {
+			fresh[n] = src
+		}
+		tplsRef := tpls
+		_ = tplsRef
+		for n := range probes {
+			tpls[n] = fresh[n] // the memory loader of env serves the probe too
+		}
+		var names []string
+		for n := range probes {
+			names = append(names, n)
+		}
+		sort.Strings(names)
+		for _, n := range names {
+			o1, e1, p1 := tryExec(env, n, ctx)
+			fenv := stick.New(&stick.MemoryLoader{Templates: fresh})
+			fenv.Functions["name"] = env.Functions["name"]
+			o2, e2, p2 := tryExec(fenv, n, ctx)
+			if p1 != "" || p2 != "" {
+				return core.Violation("panic", fmt.Sprintf("executing %s = %q after %s panicked: %s%s\n    %s", n, fresh[n], main, p1, p2, desc()))
+			}
+			if o1 != o2 || (e1 == nil) != (e2 == nil) {
+				return core.Violation("render-leaves-traces", fmt.Sprintf("on the environment that has just rendered %s, %s = %q renders %q (%v), on a fresh environment %q (%v)\n    %s", main, n, fresh[n], o1, e1, o2, e2, desc()))
+			}
+		}
+	}
 	return core.Okay(cfg.L > 1, out)
 }
 
@@ -343,7 +386,7 @@ func init() {
 	core.Register(&core.Check{
 		ID:       "C09",
 		Category: "exploration",
-		Rule: "bounded-exhaustive inheritance configurations: chain length 1..4, 2 block names (3 up to length 3; thorough: 3 names to length 4, 4 names to length 2), each (level, name) absent / overriding / overriding and calling parent(), root defining all; root layout flat / second block nested in the first / first block inside a 2-iteration loop; parent named by literal, variable or concatenation; a use tag at any extending level, plain (block set ranking between own and ancestors' blocks) or aliased with block('y'); block(name) in the root; optionally a nested block of its own inside every child-level definition, before its parent() call; parent() written once, twice, inside a 2-iteration loop or directly after a block() call of another block; text outside blocks in every child; every block prints Context.Name(). " +
+		Rule: "bounded-exhaustive inheritance configurations: chain length 1..4, 2 block names (3 up to length 3; thorough: 3 names to length 4, 4 names to length 2), each (level, name) absent / overriding / overriding and calling parent(), root defining all; root layout flat / second block nested in the first / first block inside a 2-iteration loop; parent named by literal, variable or concatenation; a use tag at any extending level, plain (block set ranking between own and ancestors' blocks) or aliased with block('y'); block(name) in the root; optionally a nested block of its own inside every child-level definition, before its parent() call; parent() written once, twice, inside a 2-iteration loop or directly after a block() call of another block; text outside blocks in every child; every block prints Context.Name(); after the render, the same template and (after an aliased use) two probes importing the used template plainly / under another alias are rendered on the same environment and must give what a fresh environment gives. " +
 			"Reference: textbook resolution (most-derived definition; parent() = next definition in the order child, used, ancestors; name() = defining template). distinct = distinct configuration; non-trivial = chain length > 1",
 		Assumptions: []string{"a non-extending template with use is not claimed", "used templates define plain blocks (no parent() inside used blocks)"},
 		Levels:      c09Levels,
